@@ -55,9 +55,9 @@ _RESERVED = frozenset('''always and assign automatic begin buf bufif0 bufif1 cas
  config deassign default defparam design disable edge else end endcase endconfig endfunction endgenerate
  endmodule endprimitive endspecify endtable endtask event for force forever fork function generate genvar
  highz0 highz1 if ifnone incdir include initial inout input instance integer join large liblist library
- localparam macromodule medium module nand negedge nmos nor noshowcancelledno not notif0 notif1 or output
- parameter pmos posedge primitive pull0 pull1 pulldown pullup pulsestyle_oneventglitch
- pulsestyle_ondetectglitch remos real realtime reg release repeat rnmos rpmos rtran rtranif0 rtranif1
+ localparam macromodule medium module nand negedge nmos nor noshowcancelled not notif0 notif1 or output
+ parameter pmos posedge primitive pull0 pull1 pulldown pullup pulsestyle_onevent
+ pulsestyle_ondetect rcmos real realtime reg release repeat rnmos rpmos rtran rtranif0 rtranif1
  scalared showcancelled signed small specify specparam strong0 strong1 supply0 supply1 table task time
  tran tranif0 tranif1 tri tri0 tri1 triand trior trireg unsigned use vectored wait wand weak0 weak1 while
  wire wor xnor xor'''.split())
@@ -228,11 +228,12 @@ def store(textdir, key, text):
     d = os.path.join(textdir, re.sub(r'[^A-Za-z0-9_.-]', '_', key))
     os.makedirs(d, exist_ok=True)
     p = os.path.join(d, h + '.txt')
-    if not os.path.exists(p):
-        tmp = p + '.%d.tmp' % os.getpid()
-        with open(tmp, 'w', encoding='utf-8', errors='surrogatepass') as f:
-            f.write(text)
-        os.replace(tmp, p)
+    # always written (never "skip if present"): the allocation pattern of this process must not depend
+    # on what earlier runs left on disk, or the schedule would not replay
+    tmp = p + '.%010d.tmp' % os.getpid()
+    with open(tmp, 'w', encoding='utf-8', errors='surrogatepass') as f:
+        f.write(text)
+    os.replace(tmp, p)
     return h
 
 
@@ -245,11 +246,14 @@ def run_export(spec, noise, textdir):
     names = [w.name for w in block.wirevector_set]          # the schedule, as observed
     res['set_order'] = names
     res['kinds'] = [type(w).__name__ for w in block.wirevector_set]     # parallel to set_order
-    # nets in Block.logic iteration order: [op, dest name, memid, str(write-enable), write-enable name]
+    # nets in Block.logic iteration order:
+    # [op, dest name, memid, str(write-enable), write-enable name, str(addr), str(data)]
     res['nets'] = [[n.op, n.dests[0].name if n.dests else None,
                     n.op_param[0] if n.op in 'm@' else None,
                     str(n.args[2]) if n.op == '@' else None,
-                    n.args[2].name if n.op == '@' else None] for n in block.logic]
+                    n.args[2].name if n.op == '@' else None,
+                    str(n.args[0]) if n.op == '@' else None,
+                    str(n.args[1]) if n.op == '@' else None] for n in block.logic]
     sim, tracer = simulate(block, stim, track='all' if opts['track_all'] else 'named')
     res['tracked_order'] = [w.name for w in tracer.wires_to_track]
     texts = {}
